@@ -175,8 +175,12 @@ def matrix_with_spectrum(rng, q0, q1, kind, cplx):
 
 
 def _layout(rng, m, n):
-    lay = str(rng.choice(['zero', 'sorted', 'unsorted', 'q0sorted', 'q1sorted', 'disjoint', 'big', 'pairs', 'repeated', 'huge']))
+    lay = str(rng.choice(['zero', 'sorted', 'unsorted', 'q0sorted', 'q1sorted', 'disjoint', 'big', 'pairs', 'repeated', 'huge', 'mirror']))
     r = int(rng.integers(1, 3))
+    if lay == 'mirror':
+        # the same charge vector on both sides (optionally permuted): every charge block is square
+        q = gen.qvec(rng, min(m, n), 'unsorted', r)
+        return lay, np.concatenate([q, gen.qvec(rng, m - len(q), 'unsorted', r) + 50]), np.concatenate([q, gen.qvec(rng, n - len(q), 'unsorted', r) + 90])[rng.permutation(n) if rng.random() < 0.5 else np.arange(n)]
     if lay == 'q0sorted':
         return lay, gen.qvec(rng, m, 'sorted', r), gen.qvec(rng, n, 'unsorted', r)
     if lay == 'q1sorted':
@@ -192,9 +196,9 @@ SCALES = [1, 1, 1, 0.01, 1e-20, 1e20, 1e-170, 1e170, 1e-280, 1e280]      # beyon
 def random_svd(ctx, idx, rng):
     m, n = (int(rng.integers(1, 25)), int(rng.integers(1, 25))) if idx % 20 else (int(rng.integers(25, 120)), int(rng.integers(25, 120)))
     lay, q0, q1 = _layout(rng, m, n)
-    kind = str(rng.choice(['decaying', 'flat', 'staircase', 'degenerate', 'deficient', 'random', 'zerocols', 'binary', 'dupcols']))
+    kind = str(rng.choice(['decaying', 'flat', 'staircase', 'degenerate', 'deficient', 'random', 'zerocols', 'binary', 'dupcols', 'nearstruct', 'nearstruct']))
     cplx = bool(rng.random() < 0.5)
-    if kind in ('zerocols', 'binary', 'dupcols'):
+    if kind in ('zerocols', 'binary', 'dupcols', 'nearstruct'):
         A = gen.structured_block_matrix(rng, q0, q1, kind) * float(rng.choice(SCALES))
         cplx = bool(np.iscomplexobj(A))
     else:
